@@ -1,7 +1,17 @@
 (* Specification side of C12 / C13: the acceptance relation the laws are stated
    against, the law checkers that are run on the IMPLEMENTATION's answers, and
    the narrow syntactic classifiers of the known exceptions.  No proofs here. *)
-From Capy Require Import Common.Util Common.Ty Model.TyRel Model.ExpectMatch.
+From Capy Require Import Common.Util Common.Ty.
+From Capy Require Import Model.TyRel Model.ExpectMatch.
+
+Section WithFixes.
+Variable fx : fixes.
+Notation fit := (fit fx).
+Notation weak := (weak fx).
+Notation feq := (feq fx).
+Notation has_semantics_of := (has_semantics_of fx).
+Notation tmax := (tmax fx).
+
 
 (* "a value of type a is implicitly accepted where e is expected": the decision of
    expect_match for two known types = can_fit_into, plus its `type` shortcut for
@@ -45,12 +55,14 @@ Fixpoint has_nominal (t : ty) : bool :=
 (* C12-1: an anonymous array literal type (possibly under ? or ^) whose element type
    mentions a nominal type: is_weak_replaceable_by compares the elements with
    is_functionally_equivalent_to, which ignores uids, while can_fit_into does not *)
-Fixpoint known_weak_fit (a : ty) : bool :=
+Fixpoint known_weak_fit0 (a : ty) : bool :=
   match a with
   | AnonArray _ f => has_nominal f
-  | Optional f | Ptr _ f => known_weak_fit f
+  | Optional f | Ptr _ f => known_weak_fit0 f
   | _ => false
   end.
+(* the class is empty once the C12-1 fix is in force *)
+Definition known_weak_fit (a : ty) : bool := negb (fx_weak_nominal fx) && known_weak_fit0 a.
 
 (* C12-2 / C12-3: exactly where Ty::max returns a type that does not accept an operand.
    Follows max's own recursion (Optional/Optional, ErrorUnion/ErrorUnion); [depth] says we
@@ -61,11 +73,18 @@ Fixpoint known_weak_fit (a : ty) : bool :=
          not fit into the distinct type;
      2 = below a sum: two zero-sized variants of different enums, or a zero-sized type and
          `type`: max answers `type`, and ?type does not accept ?variant *)
+Definition known_max_distinct (a b : ty) : bool :=
+  (* class 1 is empty once the C12-2 fix is in force *)
+  match a, b with
+  | _, Distinct _ _ => negb (fx_max_distinct fx) && has_semantics_of b a && negb (fit a b)
+  | Distinct _ _, _ => negb (fx_max_distinct fx) && has_semantics_of a b && negb (fit b a)
+  | _, _ => false
+  end.
+
 Fixpoint known_max (depth : bool) (a b : ty) {struct a} : N :=
   if ty_eqb a b then 0 else
+  if known_max_distinct a b then 1 else
   match a, b with
-  | _, Distinct _ _ => if has_semantics_of b a && negb (fit a b) then 1 else 0
-  | Distinct _ _, _ => if has_semantics_of a b && negb (fit b a) then 1 else 0
   | Variant e1 _ _ _ _, Variant e2 _ _ _ _ =>
       if depth && negb (N.eqb e1 e2) && is_zero_sized a && is_zero_sized b then 2 else 0
   | x, TType | TType, x => if depth && is_zero_sized x then 2 else 0
@@ -128,7 +147,12 @@ Fixpoint ntarget (a e : ty) {struct e} : ntarget_kind :=
   | Distinct _ s | Variant _ _ _ s _ =>
       match a, e with
       | Distinct _ _, Distinct _ _ | Variant _ _ _ _ _, Variant _ _ _ _ _ => NT_cross
-      | Struct _ _, Variant _ _ _ _ _ => NT_payload
+      | Struct _ _, Variant _ _ _ _ _ =>
+          (* the class is empty once the C13-2 fix is in force: then only the same struct
+             (possibly wrapped) or an anonymous struct type can be the payload *)
+          if fx_feq_uid fx
+          then match ntarget a s with NT_cross => NT_cross | NT_payload => NT_payload | _ => NT_wrapper end
+          else NT_payload
       | _, _ => match ntarget a s with NT_cross => NT_cross | NT_payload => NT_payload | _ => NT_wrapper end
       end
   | AnonStruct _ => match a with Struct _ _ => NT_structural | _ => NT_cross end
@@ -142,3 +166,5 @@ Definition ntarget_code (k : ntarget_kind) : N :=
 Definition law_nominal (a e : ty) (fit_ae : bool) : bool :=
   negb (is_nominal a && fit_ae) ||
   match ntarget a e with NT_cross => false | _ => true end.
+
+End WithFixes.
